@@ -219,12 +219,21 @@ class Peer:
     def send(self, mtype: int, body: bytes = b'') -> None:
         self.conn.sendall(b'\xff' * 16 + struct.pack('!HB', 19 + len(body), mtype) + body)
 
-    def establish(self, peer_as: int, peer_asn4: bool = True, rid: str = '10.0.0.2', hold: int = 180) -> dict:
-        """read the daemon's OPEN, answer with its own capabilities mirrored (as corpus.mirror_session does in-process)"""
+    def establish(self, peer_as: int, peer_asn4: bool = True, rid: str = '10.0.0.2', hold: int = 180, peer_body: bytes | None = None) -> dict:
+        """read the daemon's OPEN, answer with its own capabilities mirrored (as corpus.mirror_session does in-process) or
+        with the given OPEN body"""
         t, body = self.read_message()
         if t != 1:
             raise Inconclusive(f'expected an OPEN, got {t}')
         d = rw.dec_open(body)
+        self.open_body = bytes(body)
+        if peer_body is not None:
+            self.send(1, peer_body)
+            self.send(4)
+            t, body = self.read_message()
+            if t != 4:
+                raise Inconclusive(f'expected a KEEPALIVE after the OPENs, got {t} {body.hex()[:40]}')
+            return d
         caps = []
         for code, val in d['caps']:
             if code == rw.CAP_ASN4:
